@@ -395,3 +395,144 @@ Proof.
   - right. left. exists key. apply (W key r); [discriminate|exact P].
   - right. right. exact P.
 Qed.
+
+(* ---------------------------------------------------------------- a held target record stays held, unexpired and on the
+   expiry structures through the update / re-lock path (local) *)
+Definition TG (x : db) (xe : list ref) (r : ref) : Prop :=
+  (exists l, aget (store x) r = Some l /\ 0 < l_locked l /\ l_expried l = false) /\ Ein x xe r.
+
+Lemma TG_same x x' xe r : store x' = store x -> ewheel x' = ewheel x -> elong x' = elong x -> TG x xe r -> TG x' xe r.
+Proof. intros E1 E2 E3 [A B]. unfold TG, Ein. rewrite E1, E2, E3. split; auto. Qed.
+Lemma TG_updm x xe r k f : TG x xe r -> TG (updm x k f) xe r.
+Proof. apply TG_same; [apply store_updm|apply ew_updm|apply el_updm]. Qed.
+Lemma TG_bump x xe r f : TG x xe r -> TG (bump f x) xe r.
+Proof. apply TG_same; reflexivity. Qed.
+Lemma TG_updl x xe r f :
+  (forall l, 0 < l_locked l -> l_expried l = false -> 0 < l_locked (f l) /\ l_expried (f l) = false) ->
+  TG x xe r -> TG (updl x r f) xe r.
+Proof.
+  intros Hf [(l & E & A & B) C]. split.
+  - exists (f l). split; [rewrite aget_store_updl, N.eqb_refl, E; reflexivity|apply Hf; auto].
+  - unfold Ein in *. rewrite ew_updl, el_updl. exact C.
+Qed.
+Lemma TG_setl x xe r l' : 0 < l_locked l' -> l_expried l' = false -> TG x xe r -> TG (setl x r l') xe r.
+Proof.
+  intros A B [_ C]. split; [exists l'; split; [rewrite store_setl; apply aget_aset_same|auto]|exact C].
+Qed.
+
+Lemma TG_push_lock_aof x xe k r fl : TG x xe r -> TG (fst (push_lock_aof x k r fl)) xe r.
+Proof.
+  intros H. unfold push_lock_aof. destruct (negb (leader x)); [exact H|].
+  destruct (has (c_flag (l_cmd (getl x r))) LOCK_FLAG_FROM_AOF); cbn [fst]; [apply TG_updl; auto|].
+  destruct (aof_lock_data true (m_data (getm x k)) (l_data (getl x r))) as [[d c'] ld']. cbn [fst].
+  apply TG_updl; auto. apply TG_updl; auto. apply TG_updm. exact H.
+Qed.
+Lemma TG_push_unlock_aof x xe k r lc uc b fl : TG x xe r -> TG (fst (push_unlock_aof x k r lc uc b fl)) xe r.
+Proof.
+  intros H. unfold push_unlock_aof. destruct (negb (leader x)); [exact H|].
+  destruct (match uc with Some u => has (c_flag u) UNLOCK_FLAG_FROM_AOF | None => false end); cbn [fst]; [apply TG_updl; auto|].
+  destruct (aof_lock_data false (m_data (getm x k)) (l_data (getl x r))) as [[d c'] ld']. cbn [fst].
+  apply TG_updl; auto. apply TG_updl; auto. apply TG_updm. exact H.
+Qed.
+
+Lemma update_locked_lock_fields x k r c l : aget (store x) r = Some l ->
+  exists l', aget (store (update_locked_lock x k r c)) r = Some l' /\ l_locked l' = l_locked l /\ l_expried l' = l_expried l.
+Proof.
+  intros E. unfold update_locked_lock. cbv zeta. rewrite (getl_some _ _ _ E). eexists. split; [rewrite store_setl; apply aget_aset_same|].
+  destruct (negb (has (c_eflag c) EF_UNLIMITED) || (c_expried c <? 65535)); destruct (has (c_tflag c) TF_NO_RESET_TCC);
+    destruct (has (c_eflag c) EF_NO_RESET_ECC);
+    match goal with |- context [if ?b then _ else _] => destruct b end; split; reflexivity.
+Qed.
+
+Lemma TG_update_locked_lock x xe k r c : TG x xe r -> TG (update_locked_lock x k r c) xe r.
+Proof.
+  intros [(l & E & A & B) C]. destruct (update_locked_lock_fields x k r c l E) as (l' & E' & L1 & L2). split.
+  - exists l'. split; [exact E'|]. split; congruence.
+  - exact C.
+Qed.
+
+Lemma remove_long_expried_store x r eT :
+  exists f, (forall l, l_locked (f l) = l_locked l) /\ store (remove_long_expried x r eT) = store (updl x r f).
+Proof.
+  unfold remove_long_expried. destruct (aget (elong x) (lkey eT)) as [q|].
+  - eexists (fun l => l <| l_long := false |> <| l_refc := dec8 (l_refc l) |>). split; [intros l; reflexivity|].
+    cbv zeta. unfold updl.
+    match goal with |- store (match aget (store ?X) r with _ => _ end) = _ => change (store X) with (store x) end.
+    destruct (aget (store x) r); reflexivity.
+  - eexists (fun l => l <| l_long := false |>). split; [intros l; reflexivity|reflexivity].
+Qed.
+
+Lemma TG_update_and_rearm x xe k r c : TG x xe r -> TG (fst (update_and_rearm x k r c)) xe r.
+Proof.
+  intros H. unfold update_and_rearm. cbv zeta.
+  destruct (l_long (getl x r)); [|cbn [fst]; apply TG_update_locked_lock; exact H].
+  pose proof (TG_update_locked_lock x xe k r c H) as H1.
+  set (x1 := update_locked_lock x k r c) in *.
+  destruct (negb (has (c_eflag c) EF_MILLISECOND)); [|cbn [fst]; exact H1].
+  match goal with |- context [if ?b then _ else _] => destruct b end; [|cbn [fst]; exact H1].
+  set (x2 := remove_long_expried x1 r (l_eT (getl x r))).
+  pose proof (add_expried_in x2 k r xe) as P. destruct (add_expried x2 k r) as [x3 ev] eqn:E3. cbn [fst] in *.
+  destruct H1 as [(l1 & E1 & A1 & B1) _].
+  destruct (remove_long_expried_store x1 r (l_eT (getl x r))) as (f & Hf & Ef). fold x2 in Ef.
+  assert (S2 : aget (store x2) r <> None).
+  { rewrite Ef. intros Hn. apply updl_stored in Hn. congruence. }
+  assert (S3 : aget (store x3) r <> None).
+  { intros Hn. apply S2. assert (E : x3 = fst (add_expried x2 k r)) by (rewrite E3; reflexivity). rewrite E in Hn.
+    apply add_expried_stored in Hn. exact Hn. }
+  destruct (aget (store x3) r) as [l3|] eqn:Er3; [|congruence].
+  assert (E3' : aget (store (fst (add_expried x2 k r))) r = Some l3) by (rewrite E3; exact Er3).
+  destruct (add_expried_rec x2 k r l3 E3') as (l2 & E2 & L2 & X2).
+  assert (Hl2 : l_locked l2 = l_locked l1).
+  { rewrite Ef, aget_store_updl, N.eqb_refl, E1 in E2. simpl in E2. inv E2. apply Hf. }
+  apply TG_updl; [intros l0 Ha Hb; split; [exact Ha|exact Hb]|].
+  split; [exists l3; split; [exact Er3|split; [lia|exact X2]]|exact P].
+Qed.
+
+(* ---------------------------------------------------------------- hint forms for the update / re-lock path *)
+Lemma NF_process_data Tw s x k r c b x' ev : process_data x k r c b = (x', ev) -> NF (Some r) Tw s x -> NF (Some r) Tw s x'.
+Proof. intros H Hs. unfold process_data in H. repeat (split_hyp H); inv_tuple H; nf. Qed.
+Lemma NF_update_locked_lock Tw s x k r c : NF (Some r) Tw s x -> NF (Some r) Tw s (update_locked_lock x k r c).
+Proof. intros H. unfold update_locked_lock. nf. Qed.
+Lemma NF_update_and_rearm s x k r c x' ev : update_and_rearm x k r c = (x', ev) -> NF (Some r) (Some r) s x -> NF (Some r) (Some r) s x'.
+Proof.
+  intros H Hs. unfold update_and_rearm in H. cbv zeta in H.
+  destruct (l_long (getl x r)); [|inv_tuple H; apply NF_update_locked_lock; auto].
+  destruct (negb (has (c_eflag c) EF_MILLISECOND)); [|inv_tuple H; apply NF_update_locked_lock; auto].
+  match type of H with (if ?c then _ else _) = _ => destruct c end; [|inv_tuple H; apply NF_update_locked_lock; auto].
+  destruct (add_expried _ k r) as [x1 e1] eqn:E. inv_tuple H.
+  apply NF_updl_T. eapply NF_add_expried; [exact E|]. apply NF_remove_long_expried. apply NF_update_locked_lock. auto.
+Qed.
+
+Lemma TG_process_data x xe k r c b x' ev : process_data x k r c b = (x', ev) -> TG x xe r -> TG x' xe r.
+Proof.
+  intros H Hs. unfold process_data in H. repeat (split_hyp H); inv_tuple H; auto.
+  apply TG_updl; [intros; cbn; auto|]. apply TG_updm. exact Hs.
+Qed.
+Lemma TG_push_lock_aof_eq x xe k r fl x' ev : push_lock_aof x k r fl = (x', ev) -> TG x xe r -> TG x' xe r.
+Proof. intros H Hs. pose proof (TG_push_lock_aof x xe k r fl Hs) as P. rewrite H in P. exact P. Qed.
+Lemma TG_push_unlock_aof_eq x xe k r lc uc b fl x' ev : push_unlock_aof x k r lc uc b fl = (x', ev) -> TG x xe r -> TG x' xe r.
+Proof. intros H Hs. pose proof (TG_push_unlock_aof x xe k r lc uc b fl Hs) as P. rewrite H in P. exact P. Qed.
+Lemma TG_update_and_rearm_eq x xe k r c x' ev : update_and_rearm x k r c = (x', ev) -> TG x xe r -> TG x' xe r.
+Proof. intros H Hs. pose proof (TG_update_and_rearm x xe k r c Hs) as P. rewrite H in P. exact P. Qed.
+
+Create HintDb tgdb.
+#[export] Hint Resolve TG_updm TG_bump : tgdb.
+#[export] Hint Extern 2 (TG (updl _ _ _) _ _) => (apply TG_updl; [intros [? ? ? ? ? ? ? ? ? ? ? ? ? ? ? ? ?] ? ?; cbn in *; auto|]) : tgdb.
+#[export] Hint Extern 1 (TG (if ?c then _ else _) _ _) => destruct c : tgdb.
+Ltac tg_eq :=
+  match goal with
+  | E : push_lock_aof _ _ _ _ = (?y, _) |- TG ?y _ _ => eapply TG_push_lock_aof_eq; [exact E|]
+  | E : push_unlock_aof _ _ _ _ _ _ _ = (?y, _) |- TG ?y _ _ => eapply TG_push_unlock_aof_eq; [exact E|]
+  | E : process_data _ _ _ _ _ = (?y, _) |- TG ?y _ _ => eapply TG_process_data; [exact E|]
+  | E : update_and_rearm _ _ _ _ = (?y, _) |- TG ?y _ _ => eapply TG_update_and_rearm_eq; [exact E|]
+  end.
+#[export] Hint Extern 1 (TG ?y _ _) => is_var y; tg_eq : tgdb.
+Ltac tg := eauto 60 with tgdb.
+
+Ltac nf_eq2 :=
+  match goal with
+  | E : process_data _ _ _ _ _ = (?y, _) |- NF _ _ _ ?y => eapply NF_process_data; [exact E|]
+  | E : update_and_rearm _ _ _ _ = (?y, _) |- NF _ _ _ ?y => eapply NF_update_and_rearm; [exact E|]
+  end.
+#[export] Hint Extern 1 (NF _ _ _ ?y) => is_var y; nf_eq2 : nrdb.
+#[export] Hint Resolve NF_update_locked_lock : nrdb.
